@@ -31,6 +31,9 @@ FIRST = {
     "C06-3": "C05.R4 at once; **C06 missed**; `copy_` scale-layout clause added to C06.R8",
     "C14-4": "C10.R6 at once; **C14 missed**; re-derivation clause added to C14.R3 (shared rule)",
     "C11-4": "reported at once (the site-count floor of C11.R4 was lowered from 4 to 2: merging identical branches is legitimate)",
+    "C16-3": "C03.R2 at once (the same edit was seeded for C03); **C16 missed**; one-sided-rows rule C16.R5 added (shares the recogniser)",
+    "C16-4": "exit 2 at first (zero-point not in the recognised form); overflow rule C16.R6 added - **which then reported F26 on the unchanged tree**",
+    "C15-3": "reported by C15.R8 (added for C15-2 an hour earlier)",
     "C06-4": "exit 2 at first (two return paths in `__tensor_unflatten__`); the reader is now analysed per path, codec verdicts count for C06.R5",
 }
 
